@@ -151,7 +151,7 @@ Section IRS.
   Qed.
 
   Lemma irs_mon_step s a cq : irs_rel s a ->
-    exists a', irs_mon c a (model_ev (irs_step c) irs_answer s cq) = Some a'
+    exists a', mon_of (spec_unit (irs_spec c)) irs_chk (fun _ _ => true) a (model_ev (irs_step c) irs_answer s cq) = Some a'
                /\ irs_rel (step_state (irs_step c) s (fst cq)) a'.
   Proof.
     apply (@unit_mon_step _ _ _ _ _ (irs_step c) irs_answer (irs_spec c) irs_chk (fun _ _ => true) irs_rel).
